@@ -515,7 +515,7 @@ func tcpMonitors(ctx *Ctx, prop string, cs *tcpCaseSpec, i int, sp *tcpConnSpec,
 	if sp.TReset && authenticated && ob.Status != "ERR_RELAY_TARGET" {
 		ctx.Monitor("C15/status-hides-target-error", fmt.Sprintf("the target reset its connection after replying (the upload had completed); the connection was reported closed with %s", ob.Status), rep)
 	}
-	if sp.Kind == "honest" && sp.Corrupt == 0 && validKind && (!sp.Validate || tcpKindPublic(sp.AKind)) && sp.ConnectOK && !sp.TReset && !sp.CReset {
+	if sp.Kind == "honest" && sp.Corrupt == 0 && validKind && (!sp.Validate || tcpKindPublic(sp.AKind)) && sp.ConnectOK {
 		inCfg := false
 		for _, k := range cs.Cfg {
 			if k.C == sp.C && k.S == sp.S {
@@ -523,9 +523,10 @@ func tcpMonitors(ctx *Ctx, prop string, cs *tcpCaseSpec, i int, sp *tcpConnSpec,
 			}
 		}
 		key := fmt.Sprintf("%d/%d/%d", sp.C, sp.S, sp.Seed)
-		if inCfg && !seenSalt[key] && ob.Status != "OK" {
+		// (a connection whose scripted ending is a reset ends with a relay error by design)
+		if inCfg && !seenSalt[key] && ob.Status != "OK" && !sp.TReset && !sp.CReset {
 			ctx.Monitor("C02/valid-connection-failed", "honest connection with a configured key and a reachable target ended with "+ob.Status, rep)
 		}
-		seenSalt[key] = true
+		seenSalt[key] = true // a later connection with the same handshake is a replay
 	}
 }
